@@ -179,6 +179,7 @@ class Interp:
     """One analysis session (shared heap, loop ids, draw serials)."""
 
     MAX_DEPTH = 14
+    MAX_REENTRY = 2      # a function may be on the inlining stack twice (helpers shared by two levels of a traversal)
 
     def __init__(self) -> None:
         self.facts = facts()
@@ -392,6 +393,10 @@ class Interp:
         if key in cache:
             return cache[key]
         cache[key] = None
+        rx = self._regex_of(node)
+        if rx is not None:
+            cache[key] = rx
+            return rx
 
         def ev(n):
             if isinstance(n, ast.Constant):
@@ -405,6 +410,8 @@ class Interp:
                 if r is not None and r[0] == "global":
                     return self._resolved(r, n.id)
                 raise ValueError
+            if isinstance(n, ast.Lambda):
+                return self._lambda_closure(n, cls.module, {})
             if isinstance(n, ast.Tuple):
                 return ("tuple", tuple(ev(e) for e in n.elts))
             if isinstance(n, ast.List):
@@ -454,7 +461,23 @@ class Interp:
             cache[cls.qualname] = w
         return cache[cls.qualname]
 
+    REGEX_METHODS = ("match", "search", "fullmatch", "sub", "subn", "split", "findall", "finditer")
+
+    @staticmethod
+    def _regex_of(node):
+        """('regex', pattern, flags source or None) for ``re.compile(<constant>[, flags])``."""
+        from .astutil import dotted
+        if isinstance(node, ast.Call) and dotted(node.func) == "re.compile" and node.args and isinstance(node.args[0], ast.Constant) \
+                and isinstance(node.args[0].value, str):
+            fl = node.args[1] if len(node.args) > 1 else next((k.value for k in node.keywords if k.arg == "flags"), None)
+            return ("regex", const(node.args[0].value), ("extname", ast.unparse(fl)) if fl is not None else NONE)
+        return None
+
     def _resolved(self, r, name):
+        if r[0] == "global":
+            rx = self._regex_of(r[1].globals.get(r[2]))
+            if rx is not None:
+                return rx
         if r[0] == "class":
             return ("class", r[1].qualname)
         if r[0] == "func":
@@ -495,6 +518,8 @@ class Interp:
                     if isinstance(vv, ast.Constant):
                         return const(vv.value)
                 raise ValueError
+            if isinstance(n, ast.Lambda):
+                return self._lambda_closure(n, mod, {})
             if isinstance(n, ast.Tuple):
                 return ("tuple", tuple(ev(e) for e in n.elts))
             if isinstance(n, ast.List):
@@ -749,7 +774,10 @@ class Interp:
         act = self.stack[-1] if self.stack else None
         if act is None or act.fi is None:
             return ("lambda", ast.unparse(n), id(n))
-        # a lambda is a closure over the current frame: ``def <lambda>(args): return body``
+        return self._lambda_closure(n, act.fi.module, dict(st.env))
+
+    def _lambda_closure(self, n: ast.Lambda, mod, env: dict):
+        """A lambda is a closure over the frame it is written in: ``def <lambda>(args): return body``."""
         fd = getattr(n, "_as_def", None)
         if fd is None:
             fd = ast.FunctionDef(name="<lambda>", args=n.args, body=[ast.Return(value=n.body)], decorator_list=[], returns=None, type_comment=None)
@@ -761,7 +789,7 @@ class Interp:
             ast.copy_location(fd.body[0], n)
             n._as_def = fd
         cid = len(self.closures) + 1
-        self.closures[cid] = (FuncInfo(act.fi.module, None, fd), dict(st.env))
+        self.closures[cid] = (FuncInfo(mod, None, fd), env)
         return ("lambda", ast.unparse(n), id(n), cid)
 
     def ev_NamedExpr(self, st, n, tree):
@@ -945,6 +973,18 @@ class Interp:
             recv, name = f[1], f[2]
             args = self.force_args(st, args, tree, n)
             o = self.obj(recv)
+            if name in self.REGEX_METHODS:
+                rx = recv if recv[0] == "regex" else None
+                if recv[0] == "call" and recv[1] == "re.compile" and recv[2]:
+                    fl = recv[2][1] if len(recv[2]) > 1 else dict(recv[3]).get("flags", NONE)
+                    rx = ("regex", recv[2][0], fl)
+                if rx is not None:
+                    kw2 = dict(kwargs)
+                    if rx[2] != NONE:
+                        kw2["flags"] = rx[2]
+                    a2 = (rx[1],) + tuple(args)
+                    tree.append(("extcall", "re." + name, a2, line))
+                    return ("call", "re." + name, a2, tuple(sorted(kw2.items())))
             if name in self.MUTATORS:
                 ob_ = self.obj(recv)
                 if ob_ is not None:
@@ -1068,7 +1108,7 @@ class Interp:
             if "^" in k:
                 callee.env.setdefault(k, v)
         act = Activation(fi, len(self.stack))
-        if len(self.stack) >= self.MAX_DEPTH or any(a.fi is fi for a in self.stack):
+        if len(self.stack) >= self.MAX_DEPTH or sum(1 for a in self.stack if a.fi is fi) >= self.MAX_REENTRY:
             tree.append(("extcall", g.qualname, tuple(g.args), getattr(node, "lineno", None)))
             return None
         self.stack.append(act)
@@ -1129,7 +1169,7 @@ class Interp:
         h = self.intrinsics.get(q)
         if h is not None:
             return h(self, st, fi, args, kwargs, n, tree)
-        if len(self.stack) >= self.MAX_DEPTH or any(a.fi is fi for a in self.stack):
+        if len(self.stack) >= self.MAX_DEPTH or sum(1 for a in self.stack if a.fi is fi) >= self.MAX_REENTRY:
             tree.append(("extcall", q, tuple(args), line))
             return ("call", q, tuple(args), ())
         shape = self._shape_intrinsic(fi)
